@@ -409,23 +409,28 @@ pub fn match_exhaustive(args: &Args) -> i32 {
     0
 }
 
-/// a parameter vector next to the estimated one (always inside the ranges of vec_to_params)
+/// a parameter vector next to the estimated one, inside the range the estimator can emit
+/// (Params!InEstimatorRange): corrections stored under other vectors do not exist anywhere
 fn perturb(rng: &mut Rng, est: &[u32]) -> Vec<u32> {
     let mut v = est.to_vec();
     for _ in 0..rng.range(1, 3) {
-        match rng.below(12) {
+        match rng.below(11) {
             0 => v[14] = *rng.pick(&[1, 2, 3, 4, 8, 32]),                       // max_chain
-            1 => v[13] = *rng.pick(&[3, 4, 8, 16, 32, 128, 258]),               // nice_length
-            2 => { v[12] = *rng.pick(&[0, 4, 5, 16, 32, 258]); v[11] = *rng.pick(&[4, 8, 32]); } // lazy
+            1 => v[13] = *rng.pick(&[8, 16, 32, 128, 258]),                     // nice_length
+            2 => { let (g, l) = *rng.pick(&[(0, 0), (4, 4), (8, 16), (8, 32), (32, 128), (32, 258)]); v[11] = g; v[12] = l; } // matching type
             3 => v[2] = 1 - v[2].min(1),                                        // zlib_compatible
-            4 => { v[16] = rng.below(5) as u32; v[17] = *rng.pick(&[0, 3, 4, 5, 6, 32]); } // add policy
+            4 => { v[16] = rng.below(5) as u32; v[17] = if v[16] == 1 || v[16] == 2 { *rng.pick(&[0, 3, 4, 5, 6, 32]) } else { 0 }; } // add policy
             5 => v[8] = *rng.pick(&[0, 1, 16, 4096, 32768]),                    // max_dist_3_matches
             6 => v[9] = 1 - v[9].min(1),                                        // very far matches
             7 => v[10] = 1 - v[10].min(1),                                      // matches to start
-            8 => { v[4] = rng.range(1, 7) as u32; if v[4] == 1 { v[5] = *rng.pick(&[3, 4, 5]); v[6] = *rng.pick(&[0x1ff, 0x7fff, 0xffff]); } else { v[5] = 0; v[6] = 0; } }
+            8 => {
+                // another hash function of the same family (3-byte or 4-byte minimum match)
+                let three = v[15] == 3;
+                v[4] = if three { *rng.pick(&[1, 1, 2, 3, 6]) } else { *rng.pick(&[4, 5, 7]) };
+                if v[4] == 1 { let (sh, m) = *rng.pick(&[(5, 32767), (4, 2047)]); v[5] = sh; v[6] = m; } else { v[5] = 0; v[6] = 0; }
+            }
             9 => v[3] = rng.range(9, 15) as u32,                                // window_bits
-            10 => v[0] = *rng.pick(&[0, 0, 1]),                                 // strategy default / rle
-            _ => v[14] = v[14] / 2 + 1,
+            _ => v[0] = *rng.pick(&[0, 0, 1]),                                  // strategy default / rle
         }
     }
     v
